@@ -1,2 +1,101 @@
--- driver stub for C14: replaced by the real line-protocol driver
-def main : IO Unit := pure ()
+import Bermuda.Model.Json
+import Bermuda.Model.Frame
+import Bermuda.Spec.C14
+open Lean Bermuda Bermuda.Frame
+
+/-! Driver for C14. Table wire: {"cols":[…], "rows":[[[col, MVal]…]…]} -/
+
+def rowToJson (r : Row) : Json := dictToJson MVal.toJson r
+def rowFromJson (j : Json) : Except String Row := dictFromJson MVal.fromJson j
+
+def tableToJson (t : Table) : Json :=
+  Json.mkObj [("cols", Json.arr (t.cols.map Json.str).toArray), ("rows", Json.arr (t.rows.map rowToJson).toArray)]
+
+def tableFromJson (j : Json) : Except String Table := do
+  return { cols := ← (← (← j.getObjVal? "cols").getArr?).toList.mapM (·.getStr?),
+           rows := ← (← (← j.getObjVal? "rows").getArr?).toList.mapM rowFromJson }
+
+def strList (j : Json) (k : String) : Except String (List String) := do
+  match j.getObjVal? k with
+  | .ok v => if v.isNull then pure [] else (← v.getArr?).toList.mapM (·.getStr?)
+  | .error _ => pure []
+
+def optField (j : Json) (k : String) : Option Json :=
+  match j.getObjVal? k with
+  | .ok v => if v.isNull then none else some v
+  | .error _ => none
+
+def exc {α} (f : α → Json) (e : Except Err α) : Json := exceptToJson f e
+
+def natJ (n : Nat) : Json := Json.num (JsonNumber.fromNat n)
+def intJ (i : Int) : Json := Json.num (JsonNumber.fromInt i)
+
+def arrayRowsToJson (rs : List ArrayRow) : Json :=
+  Json.arr (rs.map fun r => Json.arr #[r.period.toJson,
+    Json.arr (r.entries.map fun e => Json.arr #[intJ e.1, Val.toJson e.2]).toArray]).toArray
+
+def matrixToJson (m : Matrix) : Json :=
+  Json.mkObj [
+    ("slices", Json.arr (m.index.slices.map Metadata.toJson).toArray),
+    ("fields", Json.arr (m.index.fields.map Json.str).toArray),
+    ("exp_origin", intJ m.index.expOrigin), ("dev_origin", intJ m.index.devOrigin),
+    ("exp_resolution", intJ m.index.expResolution), ("dev_resolution", intJ m.index.devResolution),
+    ("shape", Json.arr #[natJ m.index.slices.length, natJ m.index.fields.length, natJ m.nPeriods, natJ m.nDevs]),
+    ("incremental", m.incremental),
+    ("entries", Json.arr (m.entries.map fun e =>
+      Json.arr #[natJ e.1.1, natJ e.1.2.1, natJ e.1.2.2.1, natJ e.1.2.2.2, ratToJson e.2]).toArray)]
+
+def handle (j : Json) : Except String Json := do
+  let op ← (← j.getObjVal? "op").getStr?
+  let t ← cellsFromJson (← j.getObjVal? "cells")
+  match op with
+  | "wide" | "long" =>
+    let long := op == "long"
+    let fieldCols ← strList j "field_cols"
+    let detailCols ← strList j "detail_cols"
+    let lossCols ← strList j "loss_detail_cols"
+    let read (tb : Table) : Except Err (List Cell) :=
+      if long then fromLongRows tb lossCols else fromWideRows tb fieldCols detailCols lossCols
+    let mt := if long then toLongRows t else toWideRows t
+    let back := mt.bind read
+    let implBack ← match optField j "impl_table" with
+      | some v => do pure (exc cellsToJson (read (← tableFromJson v)))
+      | none => pure Json.null
+    let spec ← match optField j "impl_loaded" with
+      | some v => do
+        let out ← cellsFromJson v
+        pure (Json.mkObj [
+          ("roundtrip", if long && lossCols.isEmpty then Spec.C14.longSpec t out else Spec.C14.wideSpec t out),
+          ("slices", Spec.C14.slicesSpec (long && lossCols.isEmpty) t out)])
+      | none => pure Json.null
+    let rowSpec ← match optField j "impl_nrows" with
+      | some v => do pure (Json.bool (Spec.C14.rowCountSpec long t (← v.getNat?)))
+      | none => pure Json.null
+    return Json.mkObj [("table", exc tableToJson mt), ("back", exc cellsToJson back),
+                       ("impl_table_back", implBack), ("spec", spec), ("rowspec", rowSpec)]
+  | "array" =>
+    let field ← (← j.getObjVal? "field").getStr?
+    let md ← Metadata.fromJson (← j.getObjVal? "md")
+    let res ← jInt? (← j.getObjVal? "res")
+    let fr := toArrayFrame t field
+    let backE := fr.bind fun rows => fromArrayFrame rows field md (some res)
+    let backI := fr.bind fun rows => fromArrayFrame rows field md none
+    let spec (k : String) : Except String Json := match optField j k with
+      | some v => do
+        match v.getObjVal? "ok" with
+        | .ok cs => pure (Json.bool (Spec.C14.backSpec t (← cellsFromJson cs)))
+        | .error _ => pure (Json.bool false)
+      | none => pure Json.null
+    return Json.mkObj [("frame", exc arrayRowsToJson fr), ("back_explicit", exc cellsToJson backE),
+                       ("back_inferred", exc cellsToJson backI),
+                       ("spec_explicit", ← spec "impl_explicit"), ("spec_inferred", ← spec "impl_inferred")]
+  | "matrix" =>
+    let m := toMatrix t
+    let back := m.bind fromMatrix
+    let spec ← match optField j "impl_back" with
+      | some v => do pure (Json.bool (Spec.C14.backSpec t (← cellsFromJson v)))
+      | none => pure Json.null
+    return Json.mkObj [("matrix", exc matrixToJson m), ("back", exc cellsToJson back), ("spec", spec)]
+  | o => throw s!"unknown op {o}"
+
+def main : IO Unit := serve handle
